@@ -28,9 +28,8 @@ Print Assumptions C04_cfg_good.
 (* ---------------- relative to any checker ---------------- *)
 Theorem C04_transparent_relative : forall pc check consumes f c bd b r,
   pc_good pc = true ->
-  (forall a v, consumes a v = true -> has_iter v = true) ->
   kw_guards pc f c -> twin_binding f c = Ok b ->
-  (forall oa v, In (oa, v) (supplied_of f c b) -> exists a, oa = Some a /\ accepts check a v) ->
+  (forall oa v, In (oa, v) (supplied_of f c b) -> exists a, oa = Some a /\ accepts_intact check consumes a v) ->
   f_ret f = Some r -> (forall b' cons v, bd b' cons = Ok v -> accepts check r v) ->
   run pc check consumes f c bd = twin f c bd.
 Proof. intros. eapply transparent; eassumption. Qed.
@@ -48,10 +47,6 @@ Theorem C04_generator_transparent_partial : forall check yt st rt body ops w,
   fst (w_run check yt st rt body w ops) = map res_of (fst (twin_run body (w_inner w) ops)).
 Proof. intros. now apply gen_transparent. Qed.
 Print Assumptions C04_generator_transparent_partial.
-
-Lemma consumes_model_iter : forall cfg a v, consumes_model cfg a v = true -> has_iter v = true.
-Proof. intros cfg a v H. unfold consumes_model in H. destruct a; try discriminate. destruct sp; try discriminate.
-  destruct o; try discriminate. destruct args as [|x [|y l]]; try discriminate. destruct v; try discriminate. reflexivity. Qed.
 
 (* the definition of the undecorated twin does not look at the text flags *)
 Definition with_text (f : fn) (t : text_flags) : fn :=
@@ -78,54 +73,56 @@ Section Relative.
   (* C04 under the guards: the decorated call IS the undecorated call: same outcome (the very object the
      body produced or raised), same journal (one invocation, the very same argument objects, nothing consumed) *)
   Theorem C04_transparent_partial : forall pc f c bd,
-    pc_good pc = true -> kw_guards pc f c ->
+    pc_good pc = true -> kw_guards pc f c -> no_iterator_consumed cfg f c = true ->
     c04_call_ok ctx f c = true ->
     (forall b cons, c04_result_ok ctx f (bd b cons) = true) ->
     run pc check consumes f c bd = twin f c bd.
   Proof.
-    intros pc f c bd G g H Hres. unfold c04_call_ok, c04_args_ok in H.
+    intros pc f c bd G g Hit H Hres. unfold c04_call_ok, c04_args_ok in H. unfold no_iterator_consumed in Hit.
     destruct (twin_binding f c) as [b|] eqn:Eb; [|discriminate].
     apply andb_true_iff in H as [H Hret]. apply andb_true_iff in H as [H Hann]. apply andb_true_iff in H as [H _]. apply andb_true_iff in H as [_ Hgood].
     destruct (f_ret f) as [r|] eqn:Er; [|discriminate].
     eapply transparent; try eassumption.
-    - apply consumes_model_iter.
-    - intros oa v Hin. apply good_accepts. rewrite forallb_forall in Hgood. exact (Hgood (oa, v) Hin).
+    - intros oa v Hin. rewrite forallb_forall in Hgood. pose proof (Hgood (oa, v) Hin) as Hg. simpl in Hg.
+      destruct (good_accepts _ _ Hg) as [a [E Ha]]. subst oa.
+      exists a. split; [reflexivity|]. split; [assumption|]. rewrite forallb_forall in Hit. specialize (Hit _ Hin). simpl in Hit.
+      now apply negb_true_iff in Hit.
     - intros b' cons v Ev. specialize (Hres b' cons). rewrite Ev in Hres. unfold c04_result_ok in Hres. rewrite Er in Hres.
       destruct (good_accepts _ _ Hres) as [a [E Ha]]. now inversion E; subst.
   Qed.
 
   (* the body runs exactly once, on the binding CPython would have given the undecorated function *)
   Theorem C04_body_once_partial : forall pc f c bd b,
-    pc_good pc = true -> kw_guards pc f c -> c04_call_ok ctx f c = true ->
+    pc_good pc = true -> kw_guards pc f c -> no_iterator_consumed cfg f c = true -> c04_call_ok ctx f c = true ->
     (forall b cons, c04_result_ok ctx f (bd b cons) = true) ->
     twin_binding f c = Ok b ->
     snd (run pc check consumes f c bd) = [(b, [])].
   Proof.
-    intros pc f c bd b G g H Hres Hb. rewrite (C04_transparent_partial pc f c bd G g H Hres).
+    intros pc f c bd b G g Hit H Hres Hb. rewrite (C04_transparent_partial pc f c bd G g Hit H Hres).
     unfold twin. unfold twin_binding, full_params in Hb. now rewrite Hb.
   Qed.
 
   (* an exception of the body reaches the caller unchanged; a value is returned as the very same object *)
   Theorem C04_outcome_passthrough_partial : forall pc f c bd b,
-    pc_good pc = true -> kw_guards pc f c -> c04_call_ok ctx f c = true ->
+    pc_good pc = true -> kw_guards pc f c -> no_iterator_consumed cfg f c = true -> c04_call_ok ctx f c = true ->
     (forall b cons, c04_result_ok ctx f (bd b cons) = true) ->
     twin_binding f c = Ok b ->
     fst (run pc check consumes f c bd) = bd b [].
   Proof.
-    intros pc f c bd b G g H Hres Hb. rewrite (C04_transparent_partial pc f c bd G g H Hres).
+    intros pc f c bd b G g Hit H Hres Hb. rewrite (C04_transparent_partial pc f c bd G g Hit H Hres).
     unfold twin. unfold twin_binding, full_params in Hb. now rewrite Hb.
   Qed.
 
   (* independence from the text of the function - inside the guards *)
   Theorem C04_text_independent_partial : forall pc f t t' c bd,
     pc_good pc = true -> kw_guards pc (with_text f t) c -> kw_guards pc (with_text f t') c ->
-    c04_call_ok ctx f c = true ->
+    no_iterator_consumed cfg f c = true -> c04_call_ok ctx f c = true ->
     (forall b cons, c04_result_ok ctx f (bd b cons) = true) ->
     run pc check consumes (with_text f t) c bd = run pc check consumes (with_text f t') c bd.
   Proof.
-    intros pc f t t' c bd G g g' H Hres.
-    rewrite (C04_transparent_partial pc (with_text f t) c bd G g H Hres).
-    rewrite (C04_transparent_partial pc (with_text f t') c bd G g' H Hres). reflexivity.
+    intros pc f t t' c bd G g g' Hit H Hres.
+    rewrite (C04_transparent_partial pc (with_text f t) c bd G g Hit H Hres).
+    rewrite (C04_transparent_partial pc (with_text f t') c bd G g' Hit H Hres). reflexivity.
   Qed.
 End Relative.
 Print Assumptions C04_transparent_partial.
@@ -136,15 +133,29 @@ Print Assumptions C04_text_independent_partial.
 (* ---------------- closed: the model of the whole library ---------------- *)
 (* hypothesis discharged by the C02 completeness theorem (Proofs/CheckerTop.v via Proofs/PedanticChecker.v) *)
 Theorem C04_transparent_closed_partial : forall ctx f c bd,
-  kw_guards Gen.Pedantic.pedantic_cfg f c ->
+  kw_guards Gen.Pedantic.pedantic_cfg f c -> no_iterator_consumed gcfg f c = true ->
   c04_call_ok ctx f c = true ->
   (forall b cons, c04_result_ok ctx f (bd b cons) = true) ->
   run1 ctx f c bd = twin f c bd.
 Proof.
-  intros ctx f c bd g H Hres. unfold run1.
-  exact (C04_transparent_partial gcfg ctx (checker1_accepts ctx) _ f c bd C04_cfg_good g H Hres).
+  intros ctx f c bd g Hit H Hres. unfold run1.
+  exact (C04_transparent_partial gcfg ctx (checker1_accepts ctx) _ f c bd C04_cfg_good g Hit H Hres).
 Qed.
 Print Assumptions C04_transparent_closed_partial.
+
+(* the same with the guards stated over the ground truth only (Proofs/PedanticC04.v: truth_guards): a module-level function or
+   an instance method whose receiver is called `self`, not hidden behind another decorator, no "@staticmethod" in its text,
+   called by keyword on the receiver the undecorated method would get, no iterator directly under typing.Iterable *)
+Theorem C04_transparent_ground_truth_partial : forall ctx f c bd,
+  truth_guards f c -> no_iterator_consumed gcfg f c = true ->
+  c04_call_ok ctx f c = true ->
+  (forall b cons, c04_result_ok ctx f (bd b cons) = true) ->
+  run1 ctx f c bd = twin f c bd.
+Proof.
+  intros ctx f c bd t Hit H Hres. apply C04_transparent_closed_partial; try assumption.
+  now apply (truth_kw_guards _ C04_cfg_good).
+Qed.
+Print Assumptions C04_transparent_ground_truth_partial.
 
 (* ---------------- refutations of the full statement (known findings) ---------------- *)
 Definition differs (f : fn) (c : call) (bd : body) : Prop := run1 ctx0 f c bd <> twin f c bd.
@@ -162,7 +173,7 @@ Print Assumptions C04_text_independent_refuted.
 
 (* K1: a one-shot iterator under Iterable[int] is exhausted by the check before the body sees it *)
 Theorem C04_iterator_consumed_refuted : exists f c bd,
-  c04_call_ok ctx0 f c = true /\ c04_result_ok ctx0 f (bd [] []) = true
+  c04_call_ok ctx0 f c = true /\ c04_result_ok ctx0 f (bd [] []) = true /\ no_iterator_consumed gcfg f c = false
   /\ snd (run1 ctx0 f c bd) = [([(9, BOne (SKw 9))], [SKw 9])] /\ differs f c bd.
 Proof.
   exists f_iterable, (kwcall [] [(9, VIter [one; VInt 2%Z])]), (returns one).
@@ -292,6 +303,13 @@ Example C04_star_elements_transparent :
   let c := poscall [] [vx; vx] [(11, one)] in
   c04_call_ok ctx0 f c = true /\ run1 ctx0 f c (returns one) = twin f c (returns one).
 Proof. split; reflexivity. Qed.
+
+(* an iterator that the check does not iterate (here: under Any) is inside the guards *)
+Example C04_iterator_under_any_transparent :
+  let f := func "f" [par 9 PosOrKw AAny None] plain_text in
+  let c := kwcall [] [(9, VIter [one])] in
+  no_iterator_consumed gcfg f c = true /\ c04_call_ok ctx0 f c = true /\ run1 ctx0 f c (returns one) = twin f c (returns one).
+Proof. repeat split; reflexivity. Qed.
 
 (* ---------------- the guards are satisfiable ---------------- *)
 Ltac guards :=
